@@ -90,6 +90,15 @@ class PT:
             return NativeFn("PT.tolist", lambda: tolist(eng, self))
         if name == "ndim":
             return self.ndim
+        if name in ("any", "all") and all(isinstance(d, int) for d in self.shape):
+            import itertools
+
+            def reduce_truth():
+                cells = [self.fn(tuple(z3.IntVal(j) for j in i)) for i in itertools.product(*[range(d) for d in self.shape])]
+                truths = [c if self.kind == "bool" else (eng.to_real(c) != 0) for c in cells]
+                truths = [z3.BoolVal(t) if isinstance(t, bool) else t for t in truths]
+                return z3.simplify((z3.Or if name == "any" else z3.And)(*truths)) if truths else z3.BoolVal(name == "all")
+            return NativeFn(f"PT.{name}", reduce_truth)
         raise Unsupported(f"tensor attribute {name}")
 
     def unary(self, eng, op):
